@@ -111,6 +111,26 @@ def setup():
     db.generate_mapping(check_tables=False)
     assert not P.partner.columns and Q.p.columns == ['p']
     O2O['env'] = e
+    # inheritance: attributes that exist only in a subclass, observed through query conditions
+    h = K.Env()
+    h.db = env.mock_database('sqlite')
+    h.pool = K.Pool()
+    h.db.provider.pool = h.pool
+    h.con = h.pool.con
+    from pony.orm import Required
+
+    class Person(h.db.Entity):
+        id = PrimaryKey(int)
+        age = Required(int)
+
+    class Student(Person):
+        gpa = Optional(int)
+        course = Optional(int)
+    h.Person, h.Student, h.E = Person, Student, Person
+    h.db.generate_mapping(check_tables=False)
+    O2O['inh'] = h
+    for via in range(4):                      # warm the translator / SQL caches outside the tracer
+        assert _sub(via, False, (30, 5, 1), 1, 6), (via, LAST)
 
 
 def _reset_o2o(e):
@@ -451,10 +471,113 @@ def o2o_none_then_linked(how: int, read_qp: bool) -> bool:
     return _o2o(how, False, read_qp, 0)
 
 
+# ------------------------------------------------------------------------------------------------ family 3
+def _q_base_sub(Person): 
+    from pony.orm import select
+    return select(p for p in Person if p.gpa > 4)[:]
+
+
+def _q_sub_sub(Student):
+    from pony.orm import select
+    return select(s for s in Student if s.gpa > 4)[:]
+
+
+def _q_base_base(Person):
+    from pony.orm import select
+    return select(p for p in Person if p.age > 1)[:]
+
+
+_LASTID = __import__('re').compile(r'"(\w+)"\s*$')
+
+
+def _columns(sql):
+    """Column names of a SELECT list that may carry table aliases (`"p"."gpa"`) or be `*`."""
+    m = K._SEL.match(sql)
+    if not m: return None, None
+    items = m.group(1)
+    if items.startswith('DISTINCT '): items = items[9:]
+    cols = []
+    for it in items.split(','):
+        it = it.strip()
+        mm = _LASTID.search(it)
+        cols.append(mm.group(1) if mm else it)
+    return m.group(2), cols
+
+
+SUB_COLS = ('age', 'gpa', 'course')
+
+
+def _sub(via, read_gpa, L, which, c):
+    """Student[2] (a subclass row of the Person table) becomes known through: via 0 a query over the BASE entity whose condition
+    uses the subclass attribute gpa; 1 the same condition in a query over Student; 2 a query over Person on the base attribute
+    age; 3 Person.get(id=2).  read_gpa: obj.gpa is also read through the descriptor.  Then the row is re-fetched with column
+    SUB_COLS[which] = c.  An attribute used by the condition of the query that returned the object counts as observed (pony's
+    own rule: EntityMeta._set_rbits for the attributes a query used)."""
+    from pony.orm import db_session
+    from pony.orm.core import UnrepeatableReadError
+    h = O2O['inh']
+    _reset_o2o(h)
+    Person, Student, con = h.Person, h.Student, h.con
+    row1 = {'id': 2, 'classtype': 'Student', 'age': L[0], 'gpa': L[1], 'course': L[2]}
+    row2 = dict(row1)
+    row2[SUB_COLS[which]] = c
+    st = {'loads': 0}
+
+    def responder(sql, args):
+        table, cols = _columns(sql)
+        if table != Person._table_: return None
+        st['loads'] += 1
+        if cols == ['*']: cols = ['id', 'classtype', 'age', 'gpa', 'course']
+        row = row1 if st['loads'] == 1 else row2
+        return [tuple(row[k] for k in cols)], [(k, None, None, None, None, None, None) for k in cols], -1
+    con.reset(responder)
+    before = after = None
+    exc = None
+    try:
+        with db_session:
+            if via == 0: objs = _q_base_sub(Person)
+            elif via == 1: objs = _q_sub_sub(Student)
+            elif via == 2: objs = _q_base_base(Person)
+            else: objs = [Person.get(id=2)]
+            obj = objs[0]
+            if read_gpa: obj.gpa
+            before = {n: obj._vals_[getattr(Student, n)] for n in SUB_COLS}
+            try: Person.select_by_sql('SELECT * FROM "Person"', {}, {})
+            finally: after = {n: obj._vals_.get(getattr(Student, n), K) for n in SUB_COLS}
+    except Exception as ex:
+        exc = ex
+    LAST.update(exc=exc, log=list(con.log), before=before, after=after)
+    why = []
+    if before is None or after is None or st['loads'] != 2:
+        LAST['why'] = ['scenario failed before the reload: %s' % _exc(exc)]
+        return ok(False)
+    if type(obj) is not Student: why.append('row of class Student loaded as another class')
+    if exc is not None and not isinstance(exc, UnrepeatableReadError): why.append('T0: %s' % _exc(exc))
+    observed = {'age': via == 2, 'gpa': read_gpa or via == 0 or via == 1, 'course': False}
+    changed = SUB_COLS[which]
+    if _eq(row1[changed], row2[changed]) and exc is not None: why.append('T3: unchanged row raised %s' % _exc(exc))
+    if exc is None:
+        for n in SUB_COLS:
+            if observed[n]:
+                if not _eq(after[n], before[n]): why.append('T1: %s was %s, is %s after the reload, no error' % (n, _nm(before[n]), _nm(after[n])))
+            elif after[n] is K or not _eq(after[n], row2[n]): why.append('T2: unobserved %s shows %s, database has %s' % (n, _nm(after[n]), _nm(row2[n])))
+    LAST['why'] = why
+    return ok(not why)
+
+
+def sub_query_read(via: int, read_gpa: bool, L: Tuple[int, int, int], which: int, c: int) -> bool:
+    """
+    pre: 0 <= via <= 3 and 0 <= which <= 2
+    pre: 1 < L[0] <= HI and 4 < L[1] <= HI and LO <= L[2] <= HI and LO <= c <= HI
+    post: _
+    """
+    return _sub(via, read_gpa, L, which, c)
+
+
 RELOAD = ['reload_a', 'reload_f', 'reload_f_noflush', 'reload_x', 'reload_v', 'reload_n', 'reload_n_noflush', 'reload_g', 'reload_g_noflush', 'reload_g_pending',
           'reload_two', 'reload_two_noflush']
 LINKS = ['o2o_relink_tracked', 'o2o_relink_untracked', 'o2o_none_then_linked']
-HARNESSES = RELOAD + LINKS
+HARNESSES = RELOAD + LINKS + ['sub_query_read']
 
 
 def explain(fn, **kw):
